@@ -685,7 +685,15 @@ fn slice_obs(v: &DnaStringSlice) -> Value {
         let km: debruijn::kmer::Kmer32 = v.get_kmer(1);
         kmers.push(json!([1, mer_bases(&km)]));
     }
+    // the owned copy against the same bases built by another route, and after growing
+    let owned = v.to_owned();
+    let canon = DnaString::from_bytes(&(0..n).map(|i| v.get(i)).collect::<Vec<u8>>());
+    let mut grown = v.to_owned();
+    grown.push(2);
+    grown.push(1);
+    grown.push(3);
     json!({
+        "owned_eq": owned == canon, "owned_hash_eq": hash_of(&owned) == hash_of(&canon), "owned_push": grown.to_bytes(),
         "len": n, "empty": v.is_empty(), "get": (0..n).map(|i| v.get(i)).collect::<Vec<u8>>(),
         "bytes": v.bytes(), "ascii": v.ascii(), "text": v.to_dna_string(),
         "display": format!("{}", v), "dbg": format!("{:?}", v), "owned": v.to_owned().to_bytes(),
@@ -707,7 +715,8 @@ pub fn slice_history(sink: &Sink, r: &mut Rng) {
             let n = base.len();
             match r.below(3) {
                 0 => {
-                    let k = r.range(0, n);
+                    let k0 = r.range(0, n);
+                    let k = if r.chance(1, 3) { (k0 / 32) * 32 } else { k0 };
                     (json!(["prefix", k]), guard(|| ds.prefix(k)))
                 }
                 1 => {
@@ -715,8 +724,12 @@ pub fn slice_history(sink: &Sink, r: &mut Rng) {
                     (json!(["suffix", k]), guard(|| ds.suffix(k)))
                 }
                 _ => {
-                    let a = r.range(0, n);
-                    let b = r.range(a, n);
+                    // block boundaries (multiples of 32) are frequent on either end
+                    let snap = |r: &mut Rng, x: usize| if r.chance(1, 3) { std::cmp::min(n, (x / 32) * 32) } else { x };
+                    let a0 = r.range(0, n);
+                    let a = snap(r, a0);
+                    let b0 = r.range(a, n);
+                    let b = std::cmp::max(a, snap(r, b0));
                     (json!(["slice", a, b]), guard(|| ds.slice(a, b)))
                 }
             }
